@@ -315,6 +315,36 @@ pub fn specs() -> Vec<PropSpec> {
             assumptions: COMMON_ASSUMPTIONS,
         },
         PropSpec {
+            id: "C19",
+            parts: &[("c19", 320, 6000)],
+            level: "exploration",
+            tags: &["C19"],
+            rule: "Each evaluation is one seeded history of 15-45 \
+                operations biased towards what makes exchanges fail or \
+                entries disappear: children removed at the parent, the \
+                CA's publisher removed at the publication server, parents \
+                removed, CAs deleted, suspension, entitlement changes, \
+                key rolls, restarts. The outcome of every parent and \
+                repository synchronisation attempt is derived from \
+                Krill's log output (captured through the log facade: the \
+                'Synchronize CA ..' line of the attempt and the 'Failed \
+                to ..' line of the scheduler) - a path independent of the \
+                status store - and after every operation and every \
+                single background task the status view and the issues \
+                view of every CA must show a failure exactly when the \
+                most recent attempt failed; no entry may exist for a \
+                removed parent, child or CA; at quiescence the list of \
+                published objects in the status must equal what the \
+                publication server holds for the CA after a successful \
+                synchronisation, and the (local) parent must have a \
+                success record for a child that just synchronised \
+                successfully; at every restart and snapshot point the \
+                status view of a runtime loaded afresh from the same \
+                storage must equal the live one. Non-trivial/distinct as \
+                for C01.",
+            assumptions: COMMON_ASSUMPTIONS,
+        },
+        PropSpec {
             id: "C16",
             parts: &[("c12", 96, 6000)],
             level: "exploration",
